@@ -161,7 +161,7 @@ func safeDecode(in []byte) (nodes *tlv.TlvNodes, err error, panicked any) {
 	select {
 	case r := <-ch:
 		return r.nodes, r.err, r.pan
-	case <-time.After(tlvTimeout):
+	case <-time.After(core.Stretch(tlvTimeout)):
 		msg := fmt.Sprintf("tlv.Decode(%x) did not return within %s", in[:min(len(in), 64)], tlvTimeout)
 		tlvHang.CompareAndSwap(nil, &msg)
 		return nil, fmt.Errorf("timeout"), nil
